@@ -25,7 +25,7 @@ impl From<ReadError> for Error { #[verifier::external_body] fn from(e: ReadError
 #[derive(Clone, Copy, PartialEq, Eq, Structural)]
 //@item file=netconf/src/message/rpc/mod.rs kind=struct name=MessageId sub=/MessageId(usize)=>MessageId(pub usize)/
 impl MessageId {
-//@extract id=message_id_increment file=netconf/src/message/rpc/mod.rs impl=/^impl MessageId/ fn=increment rules=R1 vis=pub
+//@extract id=message_id_increment file=netconf/src/message/rpc/mod.rs impl=/^impl MessageId/ fn=increment rules=R1 vis=pub optional=1
 //@contract
         // ids are strictly increasing, hence never reused on a session (usize::MAX requests on one session are excluded)
         requires old(self).0 < usize::MAX,
@@ -36,6 +36,7 @@ impl MessageId {
 pub mod rpc {
 use super::*;
 pub use super::MessageId;
+pub use super::Request;
 // PartialReply { message_id, buf }: the first parse phase extracted the id; `doc` stands for the buffered document
 pub struct PartialReply { pub message_id: MessageId, pub doc: u64 }
 impl PartialReply {
@@ -121,6 +122,94 @@ impl ReqMap {
     pub fn interference(&mut self, Ghost(me): Ghost<rpc::MessageId>)
         ensures rely(me, old(self).m@, final(self).m@)
     { unimplemented!() }
+}
+
+
+// ---------- Session::rpc: every request goes out under a message-id not used before on the session ----------
+pub struct Context;
+pub struct Operation { pub id: u64 }
+pub struct BuildFn;
+// O::new(&self.context, build_fn): capability check + builder (unit a5); here only its Result matters
+#[verifier::external_body]
+pub fn build_operation(ctx: &Context, f: BuildFn) -> (r: Result<Operation, Error>) { unimplemented!() }
+// the send half of the transport; `sent` = message-ids of all <rpc> frames ever handed to the transport on this session
+pub struct SendHandle { pub sent: Ghost<Set<MessageId>> }
+pub struct TxMutex { pub h: SendHandle }
+impl TxMutex {
+    #[verifier::external_body]
+    pub fn lock(&mut self) -> (r: &mut SendHandle) ensures *r == old(self).h, final(self).h == *final(r) { unimplemented!() }
+}
+pub struct Request { pub message_id: MessageId, pub operation: Operation }
+impl Request {
+    pub fn new(message_id: MessageId, operation: Operation) -> (r: Request) ensures r.message_id == message_id { Request { message_id, operation } }
+    // ClientMsg::send: serialise and hand to the transport. Whether or not an error is reported, the frame may have
+    // reached the server, so the id counts as used either way.
+    #[verifier::external_body]
+    pub fn send(&self, tx: &mut SendHandle) -> (r: Result<(), Error>)
+        requires !old(tx).sent@.contains(self.message_id),                                  // OBL:C05.rpc.message_id_not_used_before
+        ensures final(tx).sent@ == old(tx).sent@.insert(self.message_id),
+    { unimplemented!() }
+}
+pub enum Entry<'a> { Occupied(OccupiedEntry), Vacant(VacantEntry<'a>) }
+pub struct OccupiedEntry;
+pub struct VacantEntry<'a> { pub map: &'a mut ReqMap, pub key: MessageId }
+impl<'a> VacantEntry<'a> {
+    #[verifier::external_body]
+    pub fn insert(self, v: OutstandingRequest) -> (r: u8)
+        ensures final(self.map).m@ == old(self.map).m@.insert(self.key, v)
+    { unimplemented!() }
+}
+impl ReqMap {
+    // HashMap::entry
+    #[verifier::external_body]
+    pub fn entry<'a>(&'a mut self, k: MessageId) -> (r: Entry<'a>)
+        ensures match r {
+            Entry::Occupied(_) => old(self).m@.contains_key(k) && final(self).m@ == old(self).m@,
+            Entry::Vacant(v) => !old(self).m@.contains_key(k) && v.key == k && v.map.m@ == old(self).m@ && final(self).m@ == final(v.map).m@,
+        }
+    { unimplemented!() }
+    #[verifier::external_body]
+    pub fn clone(&self) -> (r: MapHandle) { unimplemented!() }
+    #[verifier::external_body]
+    pub fn contains_key(&self, k: &MessageId) -> (r: bool) ensures r == self.m@.contains_key(*k) { unimplemented!() }
+    #[verifier::external_body]
+    pub fn insert(&mut self, k: MessageId, v: OutstandingRequest) -> (r: Option<OutstandingRequest>)
+        ensures final(self).m@ == old(self).m@.insert(k, v), r is Some <==> old(self).m@.contains_key(k)
+    { unimplemented!() }
+    #[verifier::external_body]
+    pub fn remove(&mut self, k: &MessageId) -> (r: Option<OutstandingRequest>)
+        ensures final(self).m@ == old(self).m@.remove(*k), r is Some <==> old(self).m@.contains_key(*k)
+    { unimplemented!() }
+}
+pub struct MapHandle;
+pub struct RxHandle;
+impl RxMutex { #[verifier::external_body] pub fn clone(&self) -> (r: RxHandle) { unimplemented!() } }
+pub struct ReplyFuture { pub message_id: MessageId }
+impl ReplyFuture {
+    pub fn new(message_id: MessageId, requests: MapHandle, rx: RxHandle) -> (r: ReplyFuture) ensures r.message_id == message_id { ReplyFuture { message_id } }
+}
+pub struct Session { pub transport_tx: TxMutex, pub transport_rx: RxMutex, pub context: Context, pub last_message_id: MessageId, pub requests: ReqMap }
+// session invariant: every id ever put on the wire, and every key of the request map, is <= the counter
+pub open spec fn session_inv(s: Session) -> bool {
+    &&& forall|id: MessageId| #[trigger] s.transport_tx.h.sent@.contains(id) ==> id.0 <= s.last_message_id.0
+    &&& forall|id: MessageId| #[trigger] s.requests.m@.contains_key(id) ==> id.0 <= s.last_message_id.0
+    &&& inv(s.requests.m@)
+}
+impl Session {
+//@extract id=session_rpc file=netconf/src/session.rs impl=/impl<T: Transport> Session<T>/ fn=rpc rules=R1,R2,R3,R7,R17 r7map=result
+//@+ sub=/O::new(&self.context, build_fn)=>build_operation(&self.context, build_fn);;Self::recv::<O>(message_id, requests, rx)=>ReplyFuture::new(message_id, requests, rx)/
+//@sig pub fn rpc(&mut self, build_fn: BuildFn) -> (res: Result<ReplyFuture, Error>)
+//@contract
+        requires session_inv(*old(self)), old(self).last_message_id.0 < usize::MAX,
+        ensures
+            session_inv(*final(self)),                                                          // OBL:C05.rpc.counter_covers_every_used_id
+            final(self).last_message_id.0 >= old(self).last_message_id.0,
+            res matches Ok(fut) ==> {
+                &&& !old(self).transport_tx.h.sent@.contains(fut.message_id)                    // OBL:C05.rpc.fresh_id
+                &&& final(self).transport_tx.h.sent@ == old(self).transport_tx.h.sent@.insert(fut.message_id)
+                &&& final(self).requests.m@ == old(self).requests.m@.insert(fut.message_id, OutstandingRequest::Pending)   // OBL:C05.rpc.slot_pending_under_own_id
+            },
+//@end
 }
 
 //@extract id=session_recv file=netconf/src/session.rs impl=/impl<T: Transport> Session<T>/ fn=recv rules=R1,R2,R3,R5,R15,R17 erase=Reply
